@@ -582,7 +582,8 @@ LEGACY_CYCLE_SLASH_TASK = re.compile(
     rf'''
         ^
         # NOTE: legacy cycles always start with a number
-        (?P<{IDTokens.Cycle.value}>\d[^~\.\:\/\n]+)
+        # (and integer cycles can be one character long)
+        (?P<{IDTokens.Cycle.value}>\d[^~\.\:\/\n]*)
         \/
         # NOTE: task names can contain "."
         (?P<{IDTokens.Task.value}>[^~\:\/\n]+)
